@@ -238,3 +238,24 @@ def check(repo: Repo, rep: Report) -> None:
             ok = u(c.args[0]) == "string" and kw.get("timespan") == "timespan" and kw.get("lookup") == "lookup" and kw.get("error") == "error" \
                 and all(kw.get(k) == v for k, v in extra.items()) and kw.get("raise_stopped") == "True"
         rep.ob("M5-forwarding", f, f"{fname} -> parse(string, timespan=, lookup=, error=...)", ok, f"{fname} does not forward its arguments to parse in their roles (with raise_stopped=True: marbles after the terminal marble are an error, not silently dropped)")
+    # the marbles test context's cold() / hot() are the library's own from_marbles / hot with the context's timespan (and, for hot,
+    # the subscription time as due time, on the context's scheduler): one marble semantics, not a second one rebuilt from exp()
+    TMB = "reactivex/testing/marbles.py"
+    for fname, callee, want in (("test_cold", "from_marbles", {"timespan": "timespan", "lookup": "lookup", "error": "error"}),
+                                ("test_hot", "hot", {"timespan": "timespan", "duetime": "subscribed", "lookup": "lookup", "error": "error", "scheduler": "scheduler"})):
+        f = repo.opt_fn(TMB, f"marbles_testing.{fname}")
+        if f is None:
+            rep.ob("M5-forwarding", TMB, f"marbles_testing.{fname}", False, f"the marbles test context has no {fname} any more")
+            continue
+        calls = [x for x in sites(f) if isinstance(x.node, ast.Call) and (dotted(x.node.func) or "").split(".")[-1] == callee]
+        ok = len(calls) == 1
+        if ok:
+            c = calls[0].node
+            kw = {k.arg: u(k.value) for k in c.keywords}
+            params = f.params
+            ok = bool(c.args) and u(c.args[0]) == params[0] and all(kw.get(k) == v for k, v in want.items())
+        rets = [x for x in sites(f) if isinstance(x.node, ast.Return)]
+        rep.ob("M5-forwarding", f, f"marbles_testing.{fname} -> reactivex.{callee}(string, {', '.join(k + '=' for k in want)})", ok and bool(rets),
+               f"the marbles test context's {fname[5:]}() is not the library's {callee}() over the same diagram, timespan, lookup and error (for hot: due at the "
+               f"subscription time on the context's scheduler): diagrams used in tests are timed by a second, different rule (truncated times, no "
+               f"error for marbles after the terminal one)")
